@@ -579,3 +579,421 @@ Proof.
   unfold bleb, qkey, time_key in R. rewrite be_bytes_compare in R by (simpl; lia).
   destruct (Z.compare_spec (v_unstime v) (btime s)); try discriminate. lia.
 Qed.
+
+(* ================= the other direction: the queue is SOUND, hence nobody is released early ================= *)
+(* every address queued under key k is an unstaking validator whose completion time has key k *)
+Definition qs (V : amap validator) (Q : amap (list bytes)) : Prop :=
+  asorted V /\ asorted Q /\
+  forall k l a, aget Q k = Some l -> In a l -> exists v, aget V a = Some v /\ v_status v = 1%N /\ qkey v = k.
+Definition queue_sound (s : state) : Prop := qs (vals s) (unstq s).
+(* ... except possibly for entries naming [x] *)
+Definition qsx (x : bytes) (V : amap validator) (Q : amap (list bytes)) : Prop :=
+  asorted V /\ asorted Q /\
+  forall k l a, aget Q k = Some l -> In a l -> a <> x -> exists v, aget V a = Some v /\ v_status v = 1%N /\ qkey v = k.
+Definition absent (Q : amap (list bytes)) (x : bytes) : Prop := forall k l, aget Q k = Some l -> ~ In x l.
+
+Lemma qs_weaken x V Q : qs V Q -> qsx x V Q.
+Proof. intros (SV & SQ & H). split; auto. split; auto. intros k l a E I _. eapply H; eauto. Qed.
+Lemma qsx_close x V Q : qsx x V Q -> absent Q x -> qs V Q.
+Proof.
+  intros (SV & SQ & H) A. split; auto. split; auto. intros k l a E I.
+  destruct (list_eq_dec N.eq_dec a x) as [->|N]; [exfalso; eapply A; eauto|]. eapply H; eauto.
+Qed.
+(* removing x from the slot its record names removes it everywhere (soundness: it is in no other slot) *)
+Lemma qs_dequeue V Q x v : qs V Q -> aget V x = Some v -> qsx x V (dequeue Q (qkey v) x) /\ absent (dequeue Q (qkey v) x) x.
+Proof.
+  intros (SV & SQ & H) Ex. split.
+  - split; auto. split; [apply dequeue_sorted; auto|]. intros k l a E I N.
+    destruct (dequeue_incl _ _ _ _ _ SQ E) as (l0 & E0 & I0). eapply H; eauto.
+  - intros k l E I. unfold dequeue in E.
+    destruct (filter (fun y => negb (beqb y x)) (slot Q (qkey v))) as [|y q'] eqn:F.
+    + rewrite aget_adel in E by auto. destruct (beqb (qkey v) k) eqn:B; [discriminate|].
+      destruct (H k l x E I) as (v' & Ev' & _ & Kv'). rewrite Ex in Ev'. injection Ev' as <-.
+      apply beqb_false_neq in B. contradiction.
+    + rewrite aget_aset in E by auto. destruct (beqb (qkey v) k) eqn:B.
+      * injection E as <-. rewrite <- F in I. apply filter_In in I. destruct I as [_ I]. rewrite beqb_refl in I. discriminate.
+      * destruct (H k l x E I) as (v' & Ev' & _ & Kv'). rewrite Ex in Ev'. injection Ev' as <-.
+        apply beqb_false_neq in B. contradiction.
+Qed.
+Lemma qsx_put x V Q v1 : qsx x V Q -> qsx x (aset V x v1) Q.
+Proof.
+  intros (SV & SQ & H). split; [apply aset_sorted; auto|]. split; auto. intros k l a E I N.
+  destruct (H k l a E I N) as (v & Ev & R). exists v. split; auto. rewrite aget_aset by auto.
+  destruct (beqb x a) eqn:B; auto. apply beqb_eq in B. congruence.
+Qed.
+Lemma qsx_delval x V Q : qsx x V Q -> qsx x (adel V x) Q.
+Proof.
+  intros (SV & SQ & H). split; [apply adel_sorted; auto|]. split; auto. intros k l a E I N.
+  destruct (H k l a E I N) as (v & Ev & R). exists v. split; auto. rewrite aget_adel by auto.
+  destruct (beqb x a) eqn:B; auto. apply beqb_eq in B. congruence.
+Qed.
+(* a record update that keeps status 1 and the completion time, or concerns an address that is not queued *)
+Lemma qs_put_same V Q x v v1 : qs V Q -> aget V x = Some v -> v_status v1 = v_status v -> v_unstime v1 = v_unstime v -> qs (aset V x v1) Q.
+Proof.
+  intros (SV & SQ & H) Ex St Ut. split; [apply aset_sorted; auto|]. split; auto. intros k l a E I.
+  destruct (H k l a E I) as (w & Ew & Sw & Kw). rewrite aget_aset by auto. destruct (beqb x a) eqn:B.
+  - apply beqb_eq in B; subst a. rewrite Ex in Ew. injection Ew as <-. exists v1. split; auto. split; [congruence|].
+    unfold qkey in *. congruence.
+  - exists w; auto.
+Qed.
+Lemma qs_put_absent V Q x v1 : qs V Q -> absent Q x -> qs (aset V x v1) Q.
+Proof. intros H A. apply (qsx_close x); auto. apply qsx_put. apply qs_weaken; auto. Qed.
+Lemma absent_not_unstaking V Q x : qs V Q -> (forall v, aget V x = Some v -> v_status v <> 1%N) -> absent Q x.
+Proof. intros (_ & _ & H) N k l E I. destruct (H k l x E I) as (v & Ev & St & _). apply (N v Ev St). Qed.
+Lemma absent_enqueue_other Q k a x : asorted Q -> a <> x -> absent Q x -> absent (enqueue Q k a) x.
+Proof.
+  intros S N A k' l E I. unfold enqueue in E. rewrite aget_aset in E by auto. destruct (beqb k k') eqn:B.
+  - injection E as <-. apply in_app_or in I. destruct I as [I|[I|[]]]; [|congruence].
+    unfold slot in I. destruct (aget Q k) as [l0|] eqn:E0; [eapply A; eauto|destruct I].
+  - eapply A; eauto.
+Qed.
+
+Lemma qs_frame s s' : vals s' = vals s -> unstq s' = unstq s -> queue_sound s -> queue_sound s'.
+Proof. unfold queue_sound. intros -> ->. auto. Qed.
+Lemma qs_adel V Q k : qs V Q -> qs V (adel Q k).
+Proof.
+  intros (SV & SQ & H). split; auto. split; [apply adel_sorted; auto|]. intros k' l a E I.
+  rewrite aget_adel in E by auto. destruct (beqb k k'); [discriminate|]. eapply H; eauto.
+Qed.
+Lemma qs_enqueue_new V Q a v1 k : qs V Q -> absent Q a -> v_status v1 = 1%N -> qkey v1 = k ->
+  qs (aset V a v1) (enqueue Q k a).
+Proof.
+  intros (SV & SQ & H) A St Kk. split; [apply aset_sorted; auto|]. split; [apply enqueue_sorted; auto|].
+  intros k' l b E I. unfold enqueue in E. rewrite aget_aset in E by auto. rewrite aget_aset by auto.
+  destruct (beqb k k') eqn:B.
+  - apply beqb_eq in B; subst k'. injection E as <-. apply in_app_or in I. destruct I as [I|[<-|[]]].
+    + unfold slot in I. destruct (aget Q k) as [l0|] eqn:E0; [|destruct I].
+      destruct (beqb a b) eqn:Bb; [apply beqb_eq in Bb; subst b; exfalso; eapply A; eauto|]. eapply H; eauto.
+    + rewrite beqb_refl. exists v1; auto.
+  - destruct (beqb a b) eqn:Bb; [apply beqb_eq in Bb; subst b; exfalso; eapply A; eauto|]. eapply H; eauto.
+Qed.
+
+Lemma put_same_qs s a v v1 : queue_sound s -> get_val s a = Some v -> v_status v1 = v_status v -> v_unstime v1 = v_unstime v ->
+  queue_sound (put_val s a v1).
+Proof. intros H E St Ut. unfold queue_sound. cbn [vals unstq put_val set_vals]. eapply qs_put_same; eauto. Qed.
+
+Lemma force_unstake_qs s a v s' : queue_sound s -> get_val s a = Some v -> force_unstake s a v = Some s' -> queue_sound s'.
+Proof.
+  unfold force_unstake, get_val. intros H E.
+  set (s1 := if (v_status v =? 1)%N then del_unstaking (del_staked s a v) a v else del_staked s a v).
+  assert (H1 : qsx a (vals s1) (unstq s1) /\ absent (unstq s1) a).
+  { unfold s1. destruct (v_status v =? 1)%N eqn:St.
+    - rewrite del_unstaking_eq, del_unstaking_vals. apply qs_dequeue; auto.
+    - split; [apply qs_weaken; exact H|]. apply (absent_not_unstaking (vals s)); [exact H|].
+      intros v' Ev'. cbn [vals del_staked set_powidx] in Ev'. rewrite E in Ev'. injection Ev' as <-.
+      intros C. rewrite C in St. discriminate. }
+  destruct H1 as [H1 A1].
+  destruct (if 0 <? v_tokens v then burn_staked s1 (v_tokens v) else Some s1) as [s2|] eqn:E2; [|discriminate].
+  assert (F : vals s2 = vals s1 /\ unstq s2 = unstq s1).
+  { destruct (0 <? v_tokens v); [|injection E2 as <-; auto]. unfold burn_staked in E2.
+    destruct (_ <=? _); [discriminate|]. eapply bank_burn_q; eauto. }
+  destruct F as [F1 F2]. intros [= <-]. unfold queue_sound. cbn [vals unstq put_val set_vals]. rewrite F1, F2.
+  apply (qsx_close a); auto. apply qsx_put; auto.
+Qed.
+Definition sres_qs (r : sres) : Prop := match r with SOk s | SErr s => queue_sound s | SPanic => True end.
+Lemma slash_qs s a h p f : queue_sound s -> sres_qs (slash s a h p f).
+Proof.
+  intros H. unfold slash.
+  destruct (f <? 0); [exact H|]. destruct (height s <? h); [exact H|].
+  destruct (get_val s a) as [v|] eqn:E; [|exact H].
+  destruct (v_status v =? 0)%N; [exact H|].
+  destruct (tokens_from_power p) as [amount|]; [|exact I].
+  destruct (dec_mul (dec_from_int amount) f) as [d|]; [|exact I].
+  destruct (dec_truncate_int d) as [sa|]; [|exact I].
+  set (burn := Z.max (Z.min sa (v_tokens v)) 0).
+  set (v1 := with_tokens v (v_tokens v - burn)).
+  set (s2 := set_staked (put_val (del_staked s a v) a v1) a v1).
+  assert (H2 : queue_sound s2).
+  { unfold s2, queue_sound. destruct (set_staked_q (put_val (del_staked s a v) a v1) a v1) as [-> ->].
+    apply (put_same_qs (del_staked s a v) a v v1); auto. }
+  assert (G2 : get_val s2 a = Some v1).
+  { unfold get_val, s2. rewrite (proj1 (set_staked_q _ _ _)). apply get_put_val. apply H. }
+  destruct (burn_staked s2 burn) as [s3|] eqn:E3; [|exact H2].
+  assert (F : vals s3 = vals s2 /\ unstq s3 = unstq s2).
+  { unfold burn_staked in E3. destruct (_ <=? _); [discriminate|]. eapply bank_burn_q; eauto. }
+  destruct F as [F1 F2].
+  assert (H3 : queue_sound s3) by (unfold queue_sound; rewrite F1, F2; exact H2).
+  destruct (v_tokens v1 <? p_min_stake (pp s3)); [|exact H3].
+  destruct (force_unstake s3 a v1) as [s4|] eqn:E4; [|exact H3].
+  eapply force_unstake_qs; [exact H3| |exact E4]. unfold get_val. rewrite F1. exact G2.
+Qed.
+Lemma jail_qs s a s' : queue_sound s -> jail s a = Some s' -> queue_sound s'.
+Proof.
+  unfold jail. intros H. destruct (get_val s a) as [v|] eqn:E; [|discriminate].
+  destruct (v_jailed v); [discriminate|]. intros [= <-].
+  exact (put_same_qs s a v (with_jailed v true) H E eq_refl eq_refl).
+Qed.
+Lemma unjail_qs s a s' : queue_sound s -> unjail s a = Some s' -> queue_sound s'.
+Proof.
+  unfold unjail. intros H. destruct (get_val s a) as [v|] eqn:E; [|discriminate].
+  destruct (v_jailed v); [|discriminate]. intros [= <-].
+  pose proof (put_same_qs s a v (with_jailed v false) H E eq_refl eq_refl) as X.
+  unfold queue_sound. destruct (set_staked_q (put_val s a (with_jailed v false)) a (with_jailed v false)) as [-> ->]. exact X.
+Qed.
+Lemma handle_signature_qs s a p sg s' : queue_sound s -> handle_signature s a p sg = Some s' -> queue_sound s'.
+Proof.
+  unfold handle_signature. intros H.
+  destruct (aget (pkrel s) a); [|discriminate]. destruct (aget (sinfo s) a) as [si|]; [|discriminate].
+  destruct (p_window (pp s) <=? 0); [discriminate|].
+  match goal with |- context[let '(mi, ctr) := ?X in _] => destruct X as [mi ctr] end.
+  set (s1 := set_sign s (sinfo s) mi). assert (H1 : queue_sound s1) by exact H.
+  destruct (_ && _).
+  - destruct (get_val s1 a) as [v|].
+    + destruct (v_jailed v); [intros [= <-]; exact H1|].
+      pose proof (slash_qs s1 a (height s - 2) p (p_slash_dt (pp s)) H1) as Hs.
+      destruct (slash s1 a (height s - 2) p (p_slash_dt (pp s))) as [x|x|]; try discriminate;
+        simpl in Hs; (destruct (jail x a) as [s3|] eqn:Ej; [|discriminate]);
+        pose proof (jail_qs _ _ _ Hs Ej) as H3; intros [= <-]; exact H3.
+    + intros [= <-]; exact H1.
+  - intros [= <-]; exact H1.
+Qed.
+Lemma handle_double_sign_qs s a h t p s' : queue_sound s -> handle_double_sign s a h t p = Some s' -> queue_sound s'.
+Proof.
+  unfold handle_double_sign. intros H.
+  destruct (aget (pkrel s) a); [|discriminate]. destruct (_ <? _); [discriminate|].
+  destruct (get_val s a) as [v|]; [|discriminate]. destruct (v_status v =? 0)%N; [discriminate|].
+  destruct (aget (sinfo s) a) as [si|]; [|discriminate]. destruct (si_tomb si); [discriminate|].
+  pose proof (slash_qs s a (h - 1) p (p_slash_ds (pp s)) H) as Hs.
+  destruct (slash s a (h - 1) p (p_slash_ds (pp s))) as [x|x|]; try discriminate; simpl in Hs.
+  all: destruct (v_jailed v);
+    [ destruct (get_val x a) as [v2|] eqn:G2; [|discriminate];
+      destruct (force_unstake x a v2) as [s3|] eqn:Ef; [|discriminate];
+      pose proof (force_unstake_qs _ _ _ _ Hs G2 Ef) as H3; intros [= <-]; exact H3
+    | destruct (jail x a) as [s2|] eqn:Ej; [|discriminate]; pose proof (jail_qs _ _ _ Hs Ej) as H2;
+      destruct (get_val s2 a) as [v2|] eqn:G2; [|discriminate];
+      destruct (force_unstake s2 a v2) as [s3|] eqn:Ef; [|discriminate];
+      pose proof (force_unstake_qs _ _ _ _ H2 G2 Ef) as H3; intros [= <-]; exact H3 ].
+Qed.
+Lemma reward_from_fees_qs s p s' : queue_sound s -> reward_from_fees s p = Some s' -> queue_sound s'.
+Proof.
+  unfold reward_from_fees. intros H.
+  destruct (bank_send s (m_fee (ma s)) (m_pos (ma s)) (bal s (m_fee (ma s)))) as [s1|] eqn:E1; [|discriminate].
+  destruct (bank_send_q _ _ _ _ _ E1) as (F1 & F2). assert (H1 : queue_sound s1) by (eapply qs_frame; eauto).
+  destruct (get_val s1 p); [|intros [= <-]; auto].
+  intros E2. destruct (bank_send_q _ _ _ _ _ E2) as (G1 & G2). eapply qs_frame; eauto.
+Qed.
+Lemma mint_award_qs s a amt : queue_sound s -> queue_sound (mint_award s a amt).
+Proof.
+  unfold mint_award. intros H. destruct (bank_mint s (m_pool (ma s)) amt) as [s1|] eqn:E1; auto.
+  destruct (bank_mint_q _ _ _ _ E1) as (F1 & F2). assert (H1 : queue_sound s1) by (eapply qs_frame; eauto).
+  destruct (bank_send s1 (m_pool (ma s1)) a amt) as [s2|] eqn:E2; auto.
+  destruct (bank_send_q _ _ _ _ _ E2) as (G1 & G2). eapply qs_frame; eauto.
+Qed.
+Lemma mint_awards_qs s : queue_sound s -> queue_sound (mint_awards s).
+Proof.
+  unfold mint_awards. intros H.
+  assert (G : forall l st, queue_sound st -> queue_sound (fold_left (fun st p => mint_award st (fst p) (snd p)) l st)).
+  { induction l as [|x l IH]; simpl; auto. intros st Hst. apply IH. apply mint_award_qs; auto. }
+  exact (G (awards s) s H).
+Qed.
+Lemma burn_validators_loop_qs l : forall s s', queue_sound s -> burn_validators_loop l s = Some s' -> queue_sound s'.
+Proof.
+  induction l as [|[a sev] r IH]; simpl; intros s s' H; [intros [= <-]; auto|].
+  destruct (get_val s a) as [v|]; [|discriminate].
+  match goal with |- context[slash s a ?h ?p ?f] =>
+    pose proof (slash_qs s a h p f H) as Hs; destruct (slash s a h p f) as [x|x|] end;
+  try discriminate; simpl in Hs; apply IH; exact Hs.
+Qed.
+Lemma fold_opt_qs {A} (f : state -> A -> option state) :
+  (forall s x s', queue_sound s -> f s x = Some s' -> queue_sound s') ->
+  forall l s s', queue_sound s -> fold_opt f l s = Some s' -> queue_sound s'.
+Proof.
+  intros Hf. induction l as [|x l IH]; simpl; intros s s' H; [intros [= <-]; auto|].
+  destruct (f s x) as [s1|] eqn:E; [|discriminate]. apply IH. eapply Hf; eauto.
+Qed.
+Theorem begin_block_qs s h t prop votes evs s' :
+  queue_sound s -> begin_block s h t prop votes evs = Some s' -> queue_sound s'.
+Proof.
+  unfold begin_block. intros H.
+  set (s0 := set_block s h t). assert (H0 : queue_sound s0) by exact H.
+  destruct (if 1 <? h then match proposer s0 with None => None | Some p => reward_from_fees s0 p end else Some s0)
+    as [s1|] eqn:E1; [|discriminate].
+  assert (H1 : queue_sound s1).
+  { destruct (1 <? h); [|injection E1 as <-; auto]. destruct (proposer s0); [|discriminate].
+    eapply reward_from_fees_qs; eauto. }
+  pose proof (mint_awards_qs s1 H1) as H2.
+  destruct (burn_validators_loop (burns (mint_awards s1)) (mint_awards s1)) as [s3|] eqn:E3; [|discriminate].
+  pose proof (burn_validators_loop_qs _ _ _ H2 E3) as H3.
+  set (s4 := set_misc s3 (Some prop) (pkrel s3)). assert (H4 : queue_sound s4) by exact H3.
+  destruct (fold_opt _ votes s4) as [s5|] eqn:E5; [|discriminate].
+  assert (H5 : queue_sound s5).
+  { eapply (fold_opt_qs _ (fun s x s' Hs E => handle_signature_qs s _ _ _ s' Hs E)); eauto. }
+  intros E6. eapply (fold_opt_qs _ (fun s x s' Hs E => handle_double_sign_qs s _ _ _ _ s' Hs E)); eauto.
+Qed.
+
+Lemma finish_unstaking_qs s a v s' : queue_sound s -> get_val s a = Some v -> finish_unstaking s a v = Some s' -> queue_sound s'.
+Proof.
+  unfold finish_unstaking, get_val. intros H E.
+  destruct (negb (is_int64 (v_tokens v))); [discriminate|].
+  destruct (bank_send _ _ a (v_tokens v)) as [s2|] eqn:E2; [|discriminate].
+  destruct (bank_send_q _ _ _ _ _ E2) as (F1 & F2).
+  rewrite del_unstaking_vals in F1. rewrite del_unstaking_eq in F2. intros [= <-].
+  unfold queue_sound. cbn [vals unstq set_vals]. rewrite F1, F2.
+  destruct (qs_dequeue _ _ a v H E) as [X A]. apply (qsx_close a); auto. apply qsx_delval; auto.
+Qed.
+Lemma unstake_one_qs s a s' : queue_sound s -> unstake_one s a = Some s' -> queue_sound s'.
+Proof.
+  unfold unstake_one. intros H. destruct (get_val s a) as [v|] eqn:E; [|intros [= <-]; auto].
+  destruct (negb _); [intros [= <-]; auto|]. eapply finish_unstaking_qs; eauto.
+Qed.
+Lemma unstake_mature_qs s s' : queue_sound s -> unstake_mature s = Some s' -> queue_sound s'.
+Proof.
+  unfold unstake_mature. intros H. apply fold_opt_qs; auto.
+  intros st p st' Hst. destruct (fold_opt unstake_one (snd p) st) as [st1|] eqn:E; [|discriminate].
+  pose proof (fold_opt_qs unstake_one unstake_one_qs _ _ _ Hst E) as H1. intros [= <-].
+  unfold queue_sound. cbn [vals unstq set_unstq]. apply qs_adel. exact H1.
+Qed.
+Theorem end_block_qs s s' ups : queue_sound s -> end_block s = Some (s', ups) -> queue_sound s'.
+Proof.
+  unfold end_block. intros H. destruct (update_tm_validators s) as [[s1 u]|] eqn:E; [|discriminate].
+  destruct (update_tm_validators_q _ _ _ E) as (F1 & F2 & _). assert (H1 : queue_sound s1) by (eapply qs_frame; eauto).
+  destruct (unstake_mature s1) as [s2|] eqn:E2; [|discriminate]. intros [= <- _]. eapply unstake_mature_qs; eauto.
+Qed.
+
+Definition hres_qs (r : hres) : Prop := match r with HOk s | HErr s => queue_sound s end.
+Lemma handle_qs s m : queue_sound s -> hres_qs (handle s m).
+Proof.
+  intros H. destruct m as [pk a amt|a|a|f t amt|f key v raw wf|f t amt act|f h raw]; simpl.
+  - set (v0 := match get_val s a with Some v => v | None => _ end).
+    destruct (v_status v0 =? 0)%N eqn:St0; cbn [negb]; [|exact H]. apply N.eqb_eq in St0.
+    destruct (match aget (sinfo s) a with Some si => si_tomb si | None => false end); [exact H|].
+    destruct (amt <? p_min_stake (pp s)); [exact H|]. destruct (bal s a <? amt); [exact H|].
+    assert (A : absent (unstq s) a).
+    { apply (absent_not_unstaking (vals s)); [exact H|]. intros v' Ev'. unfold v0, get_val in St0. rewrite Ev' in St0.
+      rewrite St0. discriminate. }
+    set (s1 := match get_val s a with Some _ => s | None => _ end).
+    assert (H1 : queue_sound s1 /\ unstq s1 = unstq s).
+    { unfold s1. destruct (get_val s a); [auto|]. split; [|reflexivity].
+      unfold queue_sound. cbn [vals unstq set_misc put_val set_vals]. apply qs_put_absent; auto. }
+    destruct H1 as [H1 Q1].
+    destruct (bank_send s1 a (m_pool (ma s1)) amt) as [s2|] eqn:E; [|exact H1].
+    destruct (bank_send_q _ _ _ _ _ E) as (F1 & F2). assert (H2 : queue_sound s2) by (eapply qs_frame; eauto). simpl.
+    set (v1 := with_status (with_tokens v0 (v_tokens v0 + amt)) 2).
+    assert (H3 : queue_sound (set_staked (put_val s2 a v1) a v1)).
+    { unfold queue_sound. destruct (set_staked_q (put_val s2 a v1) a v1) as [-> ->].
+      cbn [vals unstq put_val set_vals]. apply qs_put_absent; auto. rewrite F2, Q1. exact A. }
+    match goal with |- queue_sound (match ?X with _ => _ end) => destruct X end; exact H3.
+  - destruct (get_val s a) as [v|] eqn:E; [|exact H]. destruct (v_status v =? 2)%N eqn:St; cbn [negb]; [|exact H].
+    destruct (_ <? _); [exact H|]. simpl. apply N.eqb_eq in St.
+    set (t := btime s + p_unstaking_time (pp s)). set (v1 := with_unstime (with_status v 1) t).
+    unfold queue_sound. cbn [vals unstq set_unstq put_val set_vals del_staked set_powidx].
+    change (match aget (unstq s) (time_key t) with Some l => l | None => [] end) with (slot (unstq s) (time_key t)).
+    change (aset (unstq s) (time_key t) (slot (unstq s) (time_key t) ++ [a])) with (enqueue (unstq s) (time_key t) a).
+    apply qs_enqueue_new; [exact H| |reflexivity|reflexivity].
+    apply (absent_not_unstaking (vals s)); [exact H|]. intros v' Ev'. unfold get_val in E. rewrite E in Ev'. injection Ev' as <-.
+    rewrite St. discriminate.
+  - destruct (get_val s a) as [v|]; [|exact H]. destruct (_ <? _); [exact H|]. destruct (negb _); [exact H|].
+    destruct (aget (sinfo s) a) as [si|]; [|exact H]. destruct (si_tomb si); [exact H|]. destruct (_ <? _); [exact H|].
+    destruct (unjail s a) as [s1|] eqn:E; [|exact H]. simpl. eapply unjail_qs; eauto.
+  - destruct (bank_send s f t amt) as [s1|] eqn:E; [|exact H]. simpl.
+    destruct (bank_send_q _ _ _ _ _ E) as (F1 & F2). eapply qs_frame; eauto.
+  - destruct (negb _); [exact H|]. destruct wf; simpl; auto. unfold apply_param. destruct v; exact H.
+  - destruct (negb _); [exact H|]. destruct (act =? 1)%N.
+    + destruct (bank_send s (m_dao (ma s)) t amt) as [s1|] eqn:E; [|exact H]. simpl.
+      destruct (bank_send_q _ _ _ _ _ E) as (F1 & F2). eapply qs_frame; eauto.
+    + destruct (act =? 2)%N; [|exact H].
+      destruct (bank_burn s (m_dao (ma s)) amt) as [s1|] eqn:E; [|exact H]. simpl.
+      destruct (bank_burn_q _ _ _ _ E) as (F1 & F2). eapply qs_frame; eauto.
+  - destruct (negb _); [exact H|]. simpl. exact H.
+Qed.
+Lemma ante_qs s t s' : queue_sound s -> ante s t = Some s' -> queue_sound s'.
+Proof.
+  unfold ante. intros H. destruct (_ <? _); [discriminate|].
+  match goal with |- context[match ?X with Some ka => _ | None => None end] => destruct X as [ka|] end; [|discriminate].
+  destruct (negb _); [discriminate|]. destruct (t_in_index t); [discriminate|]. destruct (_ <? _); [discriminate|].
+  destruct (_ && _); [discriminate|]. destruct (_ || _); [discriminate|].
+  destruct (aget (accts s) _) as [b|]; [|discriminate]. destruct (b <? t_fee t); [discriminate|].
+  intros E. destruct (bank_send_q _ _ _ _ _ E) as (F1 & F2). eapply qs_frame; eauto.
+Qed.
+Theorem deliver_tx_qs s t : queue_sound s -> queue_sound (dres_state (deliver_tx s t)).
+Proof.
+  intros H. unfold deliver_tx. destruct (_ || _); [exact H|].
+  destruct (ante s t) as [s1|] eqn:E; [|exact H]. pose proof (ante_qs _ _ _ H E) as H1.
+  pose proof (handle_qs s1 (t_msg t) H1) as Hh. destruct (handle s1 (t_msg t)); exact Hh.
+Qed.
+Theorem step_qs s o s' : queue_sound s -> step s o = Some s' -> queue_sound s'.
+Proof.
+  intros H. destruct o as [h t p vs es|t|a amt|a sev| |]; simpl.
+  - apply begin_block_qs; auto.
+  - intros [= <-]. apply deliver_tx_qs; auto.
+  - intros [= <-]. exact H.
+  - intros [= <-]. exact H.
+  - destruct (end_block s) as [[s1 u]|] eqn:E; [|discriminate]. intros [= <-]. eapply end_block_qs; eauto.
+  - intros [= <-]; auto.
+Qed.
+Theorem run_qs ops : forall s s', queue_sound s -> run ops s = Some s' -> queue_sound s'.
+Proof. unfold run. apply fold_opt_qs. apply step_qs. Qed.
+Lemma genesis_validator_qs s g : queue_sound s -> aget (vals s) (g_addr g) = None -> queue_sound (genesis_validator s g).
+Proof.
+  destruct g as [[a pk] tokens]. unfold genesis_validator, g_addr. cbn [fst]. intros H E.
+  set (v := {| v_pk := pk; v_jailed := false; v_status := 2; v_tokens := tokens; v_unstime := 0 |}).
+  assert (H1 : queue_sound (set_staked (put_val s a v) a v)).
+  { unfold queue_sound. destruct (set_staked_q (put_val s a v) a v) as [-> ->]. cbn [vals unstq put_val set_vals].
+    apply qs_put_absent; auto. apply (absent_not_unstaking (vals s)); auto. intros v' Ev'. congruence. }
+  exact H1.
+Qed.
+Theorem init_chain_qs s0 gvals dao s ups : queue_sound s0 -> NoDup (map g_addr gvals) ->
+  (forall g, In g gvals -> aget (vals s0) (g_addr g) = None) -> init_chain s0 gvals dao = Some (s, ups) -> queue_sound s.
+Proof.
+  unfold init_chain. intros H ND A.
+  assert (H1 : queue_sound (fold_left genesis_validator gvals s0)).
+  { revert s0 H ND A. induction gvals as [|g r IH]; simpl; auto. intros s0 H ND A. inversion ND as [|? ? NI ND']; subst.
+    apply IH; auto; [apply genesis_validator_qs; auto|].
+    intros g' Hg'. rewrite genesis_validator_vals; [apply A; auto|apply H|]. intros E. apply NI. rewrite E. apply in_map; auto. }
+  destruct (update_tm_validators _) as [[s2 u]|] eqn:E; [|discriminate].
+  destruct (update_tm_validators_q _ _ _ E) as (F1 & F2 & _). assert (H2 : queue_sound s2) by (eapply qs_frame; eauto).
+  destruct (bank_mint s2 _ dao) as [s3|] eqn:E3; intros [= <- _]; auto.
+  destruct (bank_mint_q _ _ _ _ E3) as (G1 & G2). eapply qs_frame; eauto.
+Qed.
+
+(* ---- never early: EndBlock does not touch an unstaking validator whose completion time is still ahead ---- *)
+Lemma finish_other s a v s' b : asorted (vals s) -> a <> b -> finish_unstaking s a v = Some s' ->
+  get_val s' b = get_val s b /\ asorted (vals s').
+Proof.
+  unfold finish_unstaking. intros S N. destruct (negb _); [discriminate|].
+  destruct (bank_send _ _ a (v_tokens v)) as [s2|] eqn:E2; [|discriminate].
+  destruct (bank_send_q _ _ _ _ _ E2) as (F1 & _). rewrite del_unstaking_vals in F1. intros [= <-].
+  unfold get_val. cbn [vals set_vals]. rewrite F1. split; [|apply adel_sorted; auto].
+  rewrite aget_adel by auto. destruct (beqb a b) eqn:B; auto. apply beqb_eq in B. contradiction.
+Qed.
+Lemma unstake_one_other s a s' b : asorted (vals s) -> a <> b -> unstake_one s a = Some s' ->
+  get_val s' b = get_val s b /\ asorted (vals s').
+Proof.
+  unfold unstake_one. intros S N. destruct (get_val s a) as [v|]; [|intros [= <-]; auto].
+  destruct (negb _); [intros [= <-]; auto|]. apply finish_other; auto.
+Qed.
+Lemma unstake_list_other l b : forall s s', asorted (vals s) -> ~ In b l -> fold_opt unstake_one l s = Some s' ->
+  get_val s' b = get_val s b /\ asorted (vals s').
+Proof.
+  induction l as [|a r IH]; simpl; intros s s' S N; [intros [= <-]; auto|].
+  destruct (unstake_one s a) as [s1|] eqn:E1; [|discriminate]. intros E2.
+  destruct (unstake_one_other s a s1 b S ltac:(tauto) E1) as [G1 S1].
+  destruct (IH s1 s' S1 ltac:(tauto) E2) as [G2 S2]. split; auto. congruence.
+Qed.
+Lemma drain_other ps b : forall s s', asorted (vals s) -> (forall p, In p ps -> ~ In b (snd p)) ->
+  fold_opt drain_step ps s = Some s' -> get_val s' b = get_val s b.
+Proof.
+  induction ps as [|p r IH]; simpl; intros s s' S N; [intros [= <-]; auto|].
+  unfold drain_step at 1. destruct (fold_opt unstake_one (snd p) s) as [s1|] eqn:E1; [|discriminate]. intros E2.
+  destruct (unstake_list_other (snd p) b s s1 S (N p (or_introl eq_refl)) E1) as [G1 S1].
+  rewrite (IH (set_unstq s1 (adel (unstq s1) (fst p))) s' S1 (fun q Hq => N q (or_intror Hq)) E2). exact G1.
+Qed.
+Theorem not_released_early s s' ups b v : queue_sound s -> end_block s = Some (s', ups) ->
+  0 <= btime s < 256 ^ 8 -> get_val s b = Some v -> v_status v = 1%N -> 0 <= v_unstime v < 256 ^ 8 ->
+  btime s < v_unstime v -> get_val s' b = Some v.
+Proof.
+  unfold end_block. intros H E Rb Eb St Rv Lt.
+  destruct (update_tm_validators s) as [[s1 u]|] eqn:E1; [|discriminate].
+  destruct (update_tm_validators_q _ _ _ E1) as (F1 & F2 & F3).
+  destruct (unstake_mature s1) as [s2|] eqn:E2; [|discriminate]. injection E as <- _.
+  unfold unstake_mature in E2.
+  set (ps := filter (fun p => bleb (fst p) (time_key (btime s1))) (unstq s1)) in *.
+  change (fold_opt drain_step ps s1 = Some s2) in E2.
+  assert (H1 : queue_sound s1) by (eapply qs_frame; eauto). pose proof H1 as (SV & SQ & HS).
+  rewrite (drain_other ps b s1 s2 SV) ; [unfold get_val; rewrite F1; exact Eb| |exact E2].
+  intros [k l] Hp Hin. apply filter_In in Hp. destruct Hp as [Hq Hm]. cbn [fst snd] in *.
+  destruct (HS k l b (in_aget _ _ _ SQ Hq) Hin) as (v' & Ev' & _ & Kv').
+  rewrite F1 in Ev'. unfold get_val in Eb. rewrite Eb in Ev'. injection Ev' as <-.
+  rewrite <- Kv', F3 in Hm. unfold bleb, qkey, time_key in Hm. rewrite be_bytes_compare in Hm by (simpl; lia).
+  destruct (Z.compare_spec (v_unstime v) (btime s)); try discriminate; lia.
+Qed.
